@@ -73,9 +73,13 @@ pub fn record(args: &Args) {
     };
 
     if mode == "all" || mode == "corpus" {
-        for src in corpus() {
+        // the days the repository's own assertions are about (every date written in its test sources): twelve of them per
+        // expression, rotating, so that the specification is also confronted with what the suite pins
+        let pinned = crate::exprs::test_dates();
+        for (k, src) in corpus().into_iter().enumerate() {
             let ctx = if src.contains("PH") || src.contains("SH") || rng.chance(1, 4) { Ctx::random(&mut rng) } else { Ctx::plain() };
-            let ev = event(id + 1, &src, &ctx, &mut rng, ndays, &[]);
+            let extra: Vec<i64> = if pinned.is_empty() { vec![] } else { (0..12).map(|j| pinned[(k * 12 + j + seed as usize) % pinned.len()]).collect() };
+            let ev = event(id + 1, &src, &ctx, &mut rng, ndays, &extra);
             out(ev, &mut id);
         }
     }
